@@ -28,6 +28,9 @@ for M in $MUTANTS; do
     R=$(cd $W/sim && VERIF_KNOWN=/verif/known_findings.jsonl VERIF_EVIDENCE_DIR=$W/out VERIF_REPLAY_DIR=$W/out timeout 900 ./target/release/sdmmc-sim check $P ${TIER:-quick} 2>&1)
     RC=$?
     SIG=$(echo "$R" | grep -E "^violation in" | head -1 | sed 's/^violation in run [0-9]*: //' | cut -d' ' -f1)
+    # the simulator process was killed (stack overflow inside the library ...): ./check reports that as a VIOLATION
+    # with a crash replay file (second pass with one worker); here it is recorded as detected
+    if [ $RC -gt 2 ]; then SIG="process-killed-exit-$RC(./check-reports-VIOLATION)"; RC=1; fi
     LINE="$LINE\t$P=$RC:$SIG"
   done
   echo -e "$LINE" >> "$OUT"
